@@ -142,14 +142,14 @@ ALSO = {
     'C05': 'selectors handed over as tuple or list with python or numpy numbers; flags held as list / tuple / float / uint8 / big-endian arrays; a sibling result selected in between; rankings of 1100-140000 fits with a relative selector cutting inside them; plot() of several sources in one call with plot_max and a threshold tuned on one of them (curves per source counted); a two-record file hop with an in-place edit between the writes',
     'C07': 'one model SED with a NaN / inf hole (NaN-aware comparisons); filters in either frequency order, built in memory or read from files, the same Filter objects handed to every call; aperture axis stored in any order; cube validity flags; SEDS column order; seven unit spellings; finely sampled SEDs (1030-4200 wavelengths); a model on another grid with the same size and end points; bystander Fitters; remove_resolved',
     'C08': 'models.conf in every accepted spelling; distance ranges in kpc / pc / cm / lyr incl. a single distance; extinction laws in any length / opacity unit; grids of up to 16421 models with the planted model in the tail; aperture axis stored in any order; zero-band and shell models; parameter columns in float64/float32/int64 with names like AV/SCALE; negative A_V ranges; unit spellings; left-over compressed convolved files',
-    'C09': 'parameter columns stored as float64 / float32 / int64, named like the fitter\'s own quantities or wider than a listing column, NaN values; additional parameters of mixed int/float type; grids of 1030-4200 models; extract_parameters options',
+    'C09': 'additional-parameter values of exactly 0; parameter columns called L / M / NAME / MODEL; parameter columns stored as float64 / float32 / int64, named like the fitter\'s own quantities or wider than a listing column, NaN values; additional parameters of mixed int/float type; grids of 1030-4200 models; extract_parameters options',
     'C10': 'an intruder user who fits another package, writes, reads and lists a fit file of their own while the results are held; catalogue-style and duplicate source names; lines typed with tabs / aligned columns / exponent notation; twin sources built independently of sedfitter\'s line parser; catalogues of 101-130 sources and grids of 1100-2100 models; a manual-writer family (Fitter.fit + FitInfoFile.write over re-used, edited Source objects); plot() with sources= / manual axes / labels off',
-    'C11': 'a fourth paired world (model names dealt out to the same SEDs in another way; one SED on another grid); sources held as lists, tuples, big-endian, strided or integer arrays (references from plain float lists); shell models with remove_resolved; a filter listed twice with other apertures; name / wavelength filter lists; bystander Fitters',
-    'C12': 'spectral axis handed over as wavelengths or frequencies in any unit; the same object written twice; apertures of the stored objects in any order (cells keyed by aperture value); model names from one pool shared by all objects of a history, every model of a cube extracted; uncertainties in another unit; reads in another unit family',
-    'C16': 'aperture axis stored in any order; unit spellings incl. MJy / uJy / legacy MJY; float32 wavelength columns with window ends within rounding of tabulated wavelengths; re-runs over left-overs of another epoch',
-    'C17': 'cubes tabulated at 2-5 wavelengths all of which are fitted; extinction laws in any unit; cubes of 1030-4200 wavelengths; validity flags; aperture axis in any order; apertures beyond the table (judged where the clamp is exact); negative A_V; filters in any order; wavelengths in any length unit',
-    'C18': 'thresholds handed over as float / int / int64 / float32; explicit names containing auto / good / bad, in sub-directories or next to the input; \'auto\' built at run time; best chi^2 of exactly 0 and one ulp from threshold x n_data; re-used output names',
-    'C19': 'records yielded before a reader error are judged too; a post-processing function run on the cut file before / after the judged read; earlier generations written to and read from the same path before the judged file; cuts applied to the path itself with sibling files present; observer reads of the growing file',
+    'C11': 'five sources using different sub-sets of the bands and the first again (remove_resolved); a fourth paired world (model names dealt out to the same SEDs in another way; one SED on another grid); sources held as lists, tuples, big-endian, strided or integer arrays (references from plain float lists); shell models with remove_resolved; a filter listed twice with other apertures; name / wavelength filter lists; bystander Fitters',
+    'C12': 'objects read from one file and written to another as they are; spectral axis handed over as wavelengths or frequencies in any unit; the same object written twice; apertures of the stored objects in any order (cells keyed by aperture value); model names from one pool shared by all objects of a history, every model of a cube extracted; uncertainties in another unit; reads in another unit family',
+    'C16': 'a named band before / between / after the wavelength filters of a cube fit; memory limits as int32 / int64 / float32; aperture axis stored in any order; unit spellings incl. MJy / uJy / legacy MJY; float32 wavelength columns with window ends within rounding of tabulated wavelengths; re-runs over left-overs of another epoch',
+    'C17': 'law tables narrower than the models; an earlier plot of the same source with the same apertures and other wavelengths; cubes tabulated at 2-5 wavelengths all of which are fitted; extinction laws in any unit; cubes of 1030-4200 wavelengths; validity flags; aperture axis in any order; apertures beyond the table (judged where the clamp is exact); negative A_V; filters in any order; wavelengths in any length unit',
+    'C18': 'one name explicit and one automatic; input files written by the harness (not by the writer under test); thresholds handed over as float / int / int64 / float32; explicit names containing auto / good / bad, in sub-directories or next to the input; \'auto\' built at run time; best chi^2 of exactly 0 and one ulp from threshold x n_data; re-used output names',
+    'C19': 'a complete control file (written the other way round) read again after the cuts; records yielded before a reader error are judged too; a post-processing function run on the cut file before / after the judged read; earlier generations written to and read from the same path before the judged file; cuts applied to the path itself with sibling files present; observer reads of the growing file',
 }
 
 PENDING = {}   # id -> reason, for properties whose check is planned but not built yet
@@ -186,7 +186,7 @@ def main():
                   'baseline_off_cmd': 'cd /repo && /venv/bin/python -m pytest -ra -q -p no:cacheprovider --timeout=900 --continue-on-collection-errors',
                   'source_commits': [], 'add_only': True},
         'engines': [{'name': 'pipesim', 'path': 'pipesim/', 'serves_properties': sorted(CLAIMED),
-                     'kind_free_text': 'deterministic simulation with fault injection: seeded scenario generator -> explicit JSON scenario (= replay file) -> executor over real sedfitter code with injected open/glob/time/input/mkdtemp seams; ddmin minimisation; 16 forked workers, each scenario executed in a child forked for it'}],
+                     'kind_free_text': 'deterministic simulation with fault injection: seeded scenario generator -> explicit JSON scenario (= replay file) -> executor over real sedfitter code with injected open/glob/time/input/mkdtemp seams; ddmin minimisation; 16 forked workers, each scenario executed in a child forked for it; a slice of every batch runs in an interpreter started with -O'}],
         'checks': checks,
         'not_applicable': na,
         'notes': 'All checks run /repo\'s working tree (editable install, asserted at start). VERIF_SEED selects the seed. See DESIGN.md.',
